@@ -149,7 +149,12 @@ func genC17(r *Rng, tier string, emit func(Case)) {
 		// k/1e8 and (k+1/2)/1e8 neighbourhoods
 		k := int64(r.U64() % (1 << uint(1+r.Intn(52))))
 		var f float64
-		switch r.Intn(6) {
+		switch r.Intn(7) {
+		case 6: // products with random mantissas in [2^53, 2^62): the integer grid is coarser than 1 there
+			f = math.Ldexp(float64(uint64(1)<<52|r.U64()%(1<<52)), 1+r.Intn(9)) / 1e8
+			if r.Bool() {
+				f = -f
+			}
 		case 0:
 			f = float64(k) / 1e8
 		case 1:
